@@ -330,4 +330,6 @@ def run(chk):
     c09.rule_model(chk, prefix="C06")   # the remote sub-tree is attached by (task_uuid, task_level) alone
     c09.rule_add_dispatch(chk)
     c09.rule_upward(chk)
+    from . import integration
+    integration.dask_continuation(chk, chk.pid)  # eliot.dask hands one serialized id to each wrapped task
     common.rule_forwarding(chk, "C06", keys=[("_action", "Action.continue_task"), ("_action", "Action.child"), ("_action", "Action.__init__")])
